@@ -67,10 +67,10 @@ def force_hard(spec, sig_draw, hot=None):
     return spec
 
 
-def core_strategy(tier):
+def core_strategy(tier, max_types=3):
     sig = st.lists(st.one_of(st.none(), st.none(), st.sampled_from([0.8, 1.0, 1.2, 0.5])), min_size=6, max_size=6)
     hot = st.sampled_from([None, None, 10.0, 50.0, 200.0, 1000.0])
-    return st.tuples(S.system_spec(big=(tier == 'thorough'), allow_ms=True), sig, hot).map(lambda t: force_hard(*t))
+    return st.tuples(S.system_spec(big=(tier == 'thorough'), allow_ms=True, max_types=max_types), sig, hot).map(lambda t: force_hard(*t))
 
 
 class Evaluation(Sub):
@@ -79,7 +79,8 @@ class Evaluation(Sub):
     budget = {'quick': 800, 'thorough': 48000}
 
     def strategy(self, tier):
-        return st.tuples(core_strategy(tier), specs.array_desc(6, (-3, 1)), specs.logfloat(-3, 1, 4), st.booleans(), st.booleans()).map(
+        # evaluations of cost() are cheap: up to four site types here (solved systems: up to three)
+        return st.tuples(core_strategy(tier, max_types=4), specs.array_desc(6, (-3, 1)), specs.logfloat(-3, 1, 4), st.booleans(), st.booleans()).map(
             lambda t: dict(t[0], x=t[1], amp=t[2], symmetric=t[3], gamma_scaled=t[4]))
 
     def check(self, spec):
@@ -173,7 +174,7 @@ class Evaluation(Sub):
         for kk in hard:
             out.label('hard=' + spec['closure'][kk][0] + ('+flag' if spec['closure'][kk][1] else '') + '/' + spec['potential'][kk][0]
                       + ('/explicit-sigma' if len(spec['potential'][kk]) > 2 else ''))
-        out.label('kT>=30' if spec['kT'] >= 30 else 'kT<30', 'amp>1' if spec['amp'] > 1 else 'amp<=1', 'max|gamma|>50' if gmax > 50 else 'max|gamma|<=50')
+        out.label('types=%d' % n, 'kT>=30' if spec['kT'] >= 30 else 'kT<30', 'amp>1' if spec['amp'] > 1 else 'amp<=1', 'max|gamma|>50' if gmax > 50 else 'max|gamma|<=50')
         return out
 
 
